@@ -1,5 +1,142 @@
 import NimaVerif.Lemmas.Trivia
-/-! # C01 — trivia-algebra theorems (being proved; see Lemmas/Trivia.lean). -/
+/-!
+# C01 — a comment never absorbs code (trivia algebra)
+
+Theorems about `Model/Trivia.lean` (the transliteration of `expressions/trivia.py`, `comment.py`):
+whatever `format_trivia` emits is empty or closed by a line break, every comment it emits is
+directly followed by a line break, and `apply_trailing_trivia` leaves a comment open at the end of
+its output in exactly one decidable situation — the obligation the construct renderers inherit.
+All statements are over every trivia list, comment, text and indentation. SPEC notions are in
+`Model/TriviaSpec.lean`. The per-construct renderers are observed by the harness, not modelled.
+-/
 namespace Nima.C01
-theorem formatTrivia_nil (i : Nat) : formatTrivia [] i = [] := rfl
+
+/-! ## `format_trivia` closes every comment -/
+
+/-- The output of `format_trivia` on a comma-free list is empty or ends with a line break: code
+    written after it starts on a fresh line. -/
+theorem formatTrivia_newline_terminated (ts : List Trivia) (i : Nat) (h : CommaFree ts) :
+    formatTrivia ts i = [] ∨ endsWithNL (formatTrivia ts i) = true :=
+  formatTrivia_nil_or_nl ts i h
+
+/-- The same for EVERY trivia list, `,` sentinels of formals included (there the output is not a
+    flatMap: a sentinel looks at its successor and at what was written before). -/
+theorem formatTrivia_newline_terminated_all (ts : List Trivia) (i : Nat) :
+    formatTrivia ts i = [] ∨ endsWithNL (formatTrivia ts i) = true :=
+  formatTrivia_nil_or_nl_all ts i
+
+/-- It is empty exactly when the list consists of line-break markers only. -/
+theorem formatTrivia_empty_iff (ts : List Trivia) (i : Nat) (h : CommaFree ts) :
+    formatTrivia ts i = [] ↔ ts.all (· == .linebreak) = true :=
+  formatTrivia_eq_nil_iff ts i h
+
+/-- Every comment token `format_trivia` writes is immediately followed by a line break: in the piece
+    decomposition of the output, whatever follows a comment piece starts with the piece `"\n"`. -/
+theorem formatTrivia_comment_closed (ts : List Trivia) (i : Nat) (h : CommaFree ts) :
+    formatTrivia ts i = piecesText (triviaPieces i ts) ∧
+    ∀ (pre : List Piece) (tok : Text) (post : List Piece),
+      triviaPieces i ts = pre ++ .cmt tok :: post → ∃ post', post = .ws ['\n'] :: post' := by
+  refine ⟨?_, ?_⟩
+  · rw [formatTrivia_eq_flatMap ts i h, piecesText_triviaPieces]
+  · intro pre tok post he
+    exact cmtClosed_spec pre.length pre _ tok post (Nat.le_refl _) (cmtClosed_triviaPieces i ts) he
+
+/-- A comment never ends in a line break itself and is never empty, so the closing line break is
+    the formatter's: line comments whose text has no line break (as tree-sitter delivers them) and
+    all block comments. -/
+theorem comment_rendering_open (c : Comment) (i : Nat) (h : c.tokenLike = true) :
+    c.rebuild i ≠ [] ∧ endsWithNL (c.rebuild i) = false :=
+  ⟨rebuild_ne_nil c i h, rebuild_not_endsWithNL c i h⟩
+
+/-! ## `apply_trailing_trivia`: exact output and the obligation it leaves -/
+
+/-- The already rendered text is only ever extended, never inspected or trimmed. -/
+theorem trailing_extends (rebuilt : Text) (after : List Trivia) (i : Nat) :
+    applyTrailingTrivia rebuilt after i = rebuilt ++ applyTrailingTrivia [] after i :=
+  applyTrailingTrivia_prefix rebuilt after i
+
+/-- Exact output when the last item is a comment `c`: the trailing block ends with the rendering of
+    `c` and nothing after it (the line break `format_trivia` put there is trimmed). An inline head
+    comment stays on the line after one space; everything else starts on a new line. -/
+theorem trailing_last_is_comment (rebuilt : Text) (init : List Trivia) (c : Comment) (i : Nat)
+    (h : CommaFree init) (hc : c.tokenLike = true) :
+    applyTrailingTrivia rebuilt (init ++ [.comment c]) i =
+      match headInline (init ++ [.comment c]) with
+      | some (c0, _) =>
+        if init.isEmpty then rebuilt ++ ' ' :: c.rebuild 0
+        else rebuilt ++ ' ' :: c0.rebuild 0 ++ '\n' :: formatTrivia init.tail i ++ c.rebuild i
+      | none => rebuilt ++ '\n' :: formatTrivia init i ++ c.rebuild i :=
+  trailing_last_comment rebuilt init c i h hc
+
+/-- Exact output when the last item is a layout marker: nothing is trimmed. -/
+theorem trailing_last_is_layout (rebuilt : Text) (init : List Trivia) (t : Trivia)
+    (ht : t.isLayout = true) (i : Nat) :
+    applyTrailingTrivia rebuilt (init ++ [t]) i =
+      match headInline (init ++ [t]) with
+      | some (c0, rest) => rebuilt ++ ' ' :: c0.rebuild 0 ++ nlBlock (formatTrivia rest i)
+      | none => rebuilt ++ nlBlock (formatTrivia (init ++ [t]) i) :=
+  trailing_last_layout rebuilt init t ht i
+
+/-- THE OBLIGATION. The text `apply_trailing_trivia` appends is non-empty and not closed by a line
+    break — i.e. the output ends inside a comment line — exactly when `leavesOpenComment after`:
+    the last item of `after` is a comment, or `after` is an inline comment followed by line-break
+    markers only. This is the precise, decidable condition under which a construct renderer must
+    emit a line break before writing more code. -/
+theorem trailing_open_comment_iff (after : List Trivia) (i : Nat) (h : CommaFree after)
+    (hc : TokenLikeTrivia after) :
+    (applyTrailingTrivia [] after i ≠ [] ∧ endsWithNL (applyTrailingTrivia [] after i) = false) ↔
+      leavesOpenComment after = true :=
+  trailing_open_iff after i h (fun c hm => hc (.comment c) hm)
+
+/-- In that situation the appended text ends with the rendering of a comment of `after`. -/
+theorem trailing_open_ends_with_comment (after : List Trivia) (i : Nat) (h : CommaFree after)
+    (hc : TokenLikeTrivia after) (ho : leavesOpenComment after = true) :
+    ∃ c pre, Trivia.comment c ∈ after ∧ applyTrailingTrivia [] after i = pre ++ c.rebuild i :=
+  trailing_open_suffix after i h (fun c hm => hc (.comment c) hm) ho
+
+/-- Otherwise the appended text is empty or closed by a line break: code may follow directly. -/
+theorem trailing_closed_otherwise (after : List Trivia) (i : Nat) (h : CommaFree after)
+    (hc : TokenLikeTrivia after) (ho : leavesOpenComment after = false) :
+    applyTrailingTrivia [] after i = [] ∨ endsWithNL (applyTrailingTrivia [] after i) = true := by
+  have hiff := trailing_open_iff after i h (fun c hm => hc (.comment c) hm)
+  by_cases h0 : applyTrailingTrivia [] after i = []
+  · exact Or.inl h0
+  · right
+    cases he : endsWithNL (applyTrailingTrivia [] after i) with
+    | true => rfl
+    | false => rw [hiff.mp ⟨h0, he⟩] at ho; simp at ho
+
+/-- "Appending code directly after the trailing trivia never puts it inside a line comment" is
+    therefore false as a statement about `apply_trailing_trivia` alone: -/
+def trailing_always_closed_full : Prop :=
+  ∀ (after : List Trivia) (i : Nat), CommaFree after → TokenLikeTrivia after →
+    applyTrailingTrivia [] after i = [] ∨ endsWithNL (applyTrailingTrivia [] after i) = true
+
+/-- witness: one own-line comment after an item; the caller has to close it. (The defect
+    `a\n++ b ++ # c\nc` → `… ++ # c c` of DESIGN §12 lives in a construct renderer that does not honour
+    this obligation; the trivia algebra itself is not at fault.) -/
+theorem cex_trailing_comment_left_open : ¬ trailing_always_closed_full := by
+  intro h
+  have := h [.comment { text := ['c'] }] 0 (by decide) (by decide)
+  revert this; decide
+
+/-! ## Examples (non-vacuity) -/
+
+/-- a trivia list with a blank line, an inline comment and a block comment -/
+def sampleTrivia : List Trivia :=
+  [.emptyLine, .comment { text := "c".toList, inline := true }, .linebreak,
+   .comment { text := "a\nb".toList, kind := .block false (some 3) }]
+
+example : CommaFree sampleTrivia ∧ TokenLikeTrivia sampleTrivia := by decide
+example : formatTrivia sampleTrivia 2 = "\n# c\n  /* a\n     b */\n".toList := by decide
+example : formatTrivia [.comma, .comment { text := "c".toList, inline := true }, .linebreak, .comma] 2
+    = "  , # c\n  ,\n".toList := by decide
+example : leavesOpenComment sampleTrivia = true := by decide
+example : applyTrailingTrivia "x = 1;".toList sampleTrivia 2 = "x = 1;\n\n# c\n  /* a\n     b */".toList := by decide
+example : applyTrailingTrivia "x = 1;".toList [.comment { text := "c".toList, inline := true }, .linebreak] 2
+    = "x = 1; # c".toList := by decide
+example : leavesOpenComment [.comment { text := "c".toList, inline := true }, .linebreak] = true := by decide
+example : leavesOpenComment [.comment { text := "c".toList }, .emptyLine] = false := by decide
+example : applyTrailingTrivia "x".toList [.comment { text := "c".toList }, .emptyLine] 2 = "x\n  # c\n\n".toList := by decide
+
 end Nima.C01
